@@ -90,7 +90,7 @@ From TV Require Import Model.Engine Model.EngineToy Proofs.EngineMemo Proofs.Eng
   Proofs.EngineHidden Proofs.EngineBlind Proofs.EngineHiddenToy Proofs.EngineHistory.
 From TV Require Import Model.PlacementBase Gen.PlacementGen Model.Placement Proofs.PlacementBlind.
 From TV Require Model.Scale.
-From TV Require Import Model.EngineRel Model.BlockEngine Model.BlockEngineExample Proofs.BlockEngineBlind.
+From TV Require Import Model.EngineRel Model.BlockEngine Model.BlockEngineExample Proofs.BlockEngineBlind Proofs.BlockEngineHidden.
 Import ListNotations.
 
 (* ---------------------------------------------------------------------------------------------- zero clause *)
@@ -402,6 +402,13 @@ Theorem C05_block_real_sets_zero_on_hidden :
   forall (T : Type) (N : Num T) (pre : BStyle T -> BIn T -> BIn T),
     SetsZeroOnHidden (BStyle T) (BIn T) (ChildOut T) (BLayout T) bs_is_none (block_alg pre abs_child_block) b_zeroish.
 Proof. intros T N pre. apply block_alg_sets_zero_on_hidden. apply abs_child_block_local. Qed.
+
+(* the same for the dispatcher of the engine `vh blocktree` runs (`bl_algo` over BNode: "has children" decides, the leaf stores nothing) -- the
+   statement above is about block_alg over bare styles, which that engine reaches only through bl_algo (audit, wave 7b; Proofs/BlockEngineHidden.v) *)
+Theorem C05_bl_real_sets_zero_on_hidden :
+  forall (T : Type) (N : Num T) (pre : BStyle T -> BIn T -> BIn T),
+    SetsZeroOnHidden (BNode T) (BIn T) (ChildOut T) (BLayout T) bn_is_none (bl_algo pre abs_child_block) b_zeroish.
+Proof. intros T N pre. apply bl_algo_real_sets_zero_on_hidden. Qed.
 
 (* engines made of block containers (sel s = true) and leaves: replacing display:none subtrees changes nothing elsewhere *)
 Theorem C05_block_engine_hidden_invisible :
@@ -865,7 +872,12 @@ Qed.
    Replacing display:none subtrees changes nothing elsewhere; no premise on the algorithms is left.  `disp` is ANY dispatch on (own style,
    number of children) -- Model/TaffyEngine.v `taffy_dispatch` is the one of taffy_tree.rs --, `leaf` ANY leaf routine (`taffy_leaf` is
    compute_leaf_layout with the node's measure function, which is part of the style); the instance these parameters give with
-   `block_pre` / `abs_child_block` is run against the implementation on whole trees by `vh taffytree` (notes/TAFFYTREE.md) *)
+   `block_pre` / `abs_child_block` is run against the implementation on whole trees by `vh taffytree` (notes/TAFFYTREE.md).
+   Scope (audit, wave 7b): ONE memoised query with the same input on both sides, from FRESH trees; `orel` also relates two evaluations that
+   both run out of fuel.  What the runner executes is taffy_compute_root (root input computed from the root style, the root's layout stored)
+   iterated over several passes: that composition is C05_taffy_layout_pass_hidden_invisible / C05_taffy_layout_passes_hidden_invisible (end of this file).  Where the Rust
+   code panics the grid branch is the total stand-in of Model/GridAlgTotal.v; the panic region is proved blind (grid_no_panic_none_rel), so the
+   stand-in is the same resumption on both sides.  Computed instance: C05_taffy_engine_example at the end of this file. *)
 Theorem C05_taffy_engine_hidden_invisible :
   forall (T : Type) (N : Num T) (disp : TStyle T -> nat -> TKind) (pre : BStyle T -> BIn T -> BIn T)
          (abs_child : @AbsChild T) (leaf : TStyle T -> FIn T -> LayoutOutput T)
@@ -943,6 +955,7 @@ Print Assumptions C05_model_filters_are_source.
 Print Assumptions C05_block_algorithm_hidden_blind.
 Print Assumptions C05_block_algorithm_sets_zero_on_hidden.
 Print Assumptions C05_block_real_sets_zero_on_hidden.
+Print Assumptions C05_bl_real_sets_zero_on_hidden.
 Print Assumptions C05_block_engine_hidden_invisible.
 Print Assumptions C05_flex_algorithm_shape.
 Print Assumptions C05_flex_model_loops_are_source.
@@ -963,3 +976,124 @@ Print Assumptions C05_taffy_engine_hidden_invisible.
 Print Assumptions C01_grid_algorithm_satisfies_interface.
 Print Assumptions C01_grid_algorithm_NS_partial.
 Print Assumptions C01_grid_algorithm_NS_refuted.
+
+(* ------------------------------------------------------------------------------------------------------------ *)
+(** * Computed instances of the grid-algorithm and complete-engine theorems (audit, wave 7b)
+
+   No grid or taffy-engine theorem of this file had a computed Example: `hsim` was never exhibited on a tree with a grid container, the only
+   grid Example (C01_grid_no_panic_example) has two in-flow items and no out-of-flow child. *)
+From TV Require Import Model.TaffyRoot Model.TaffyKey Model.TaffyExample Model.TaffyExample2 Proofs.GridAlgExamples.
+From TV Require Model.MeasureFamily.
+
+(* grid algorithm (Proofs/GridAlgExamples.v): the baseline-aligned two-column grid of the NS witness with a display:none child BETWEEN its two
+   in-flow items; on one side the hidden child has grid_row 7 and grid_column -5 / span 3, on the other it is the bare display:none style:
+   the lists differ, the Rust code does not panic on this input (grid_no_panic), the resumptions are EQUAL, and the 19 events are the
+   listed ones (12 measuring queries and 2 baseline layouts of the in-flow items, their final layouts 10 x 20 at (0, 0) and 10 x 30 at
+   (10, 0), the canonical hidden query and the zero layout of child 1, result 20 x 30) *)
+Example C05_grid_algorithm_hidden_blind_example :
+  st_h <> st_h' /\ grid_no_panic gns_container st_h g_pl = true /\
+  grid_alg gns_container st_h g_pl = grid_alg gns_container st_h' g_pl /\
+  walk 60 (grid_alg gns_container st_h g_pl) = common_prefix ++ [ES 1 (xq 0) (xq 0) (xq 0) (xq 0); ER (xq 20) (xq 30)].
+Proof.
+  split; [intros E; apply (f_equal (fun l => option_map (fun s => gs_row s) (nth_error l 1))) in E; vm_compute in E; discriminate|].
+  split; [vm_compute; reflexivity|]. split; [|vm_compute; reflexivity].
+  destruct (C05_grid_algorithm_hidden_blind XQ _) as (_ & Hv & _). rewrite (Hv _ st_h), (Hv _ st_h'). reflexivity.
+Qed.
+
+(* complete engine: Model/TaffyExample.v ex_tree (9 nodes: block root 200 > [flex row > 2 leaves; GRID 50px 50px > [leaf 20 x 10; display:none
+   leaf; text leaf]; absolute leaf]) against the same tree with the grid's hidden leaf replaced by a LOUD display:none node (70 x 70,
+   grid_row 5 / span 2, grid_column -3, a template, two children: 11 nodes): hsim, BOTH evaluations of the engine `vh taffytree` runs
+   (real_memo, representation keys) succeed with the same output 200 x 30, the result trees are tsim, the boxes of all visible nodes
+   coincide (grid 200 x 10 at y = 20) and the whole hidden subtree is zero *)
+Example C05_taffy_engine_example :
+  hsim (TStyle XQ) t_is_none ex_tree ex_tree' /\ sk_size ex_tree = 9%nat /\ sk_size ex_tree' = 11%nat /\
+  exists o t t',
+    real_memo xq_seqb 8 (taffy_fresh ex_tree) (ex_input 300%Z) = Some (o, t) /\
+    real_memo xq_seqb 8 (taffy_fresh ex_tree') (ex_input 300%Z) = Some (o, t') /\
+    tsim (TStyle XQ) (FIn XQ) (LayoutOutput XQ) (FLay XQ) t_is_none t t' /\
+    xq_is (width (out_size o)) 200 && xq_is (height (out_size o)) 30 = true /\
+    boxes_are (bxz t) [(0,0,0,0); (0,0,200,20); (0,0,30,20); (30,0,40,10); (0,20,200,10); (0,0,20,10); (0,0,0,0); (50,0,50,10);
+                       (0,30,10,10)]%Z = true /\
+    boxes_are (bxz t') [(0,0,0,0); (0,0,200,20); (0,0,30,20); (30,0,40,10); (0,20,200,10); (0,0,20,10); (0,0,0,0); (0,0,0,0); (0,0,0,0);
+                        (50,0,50,10); (0,30,10,10)]%Z = true.
+Proof.
+  assert (Hs : hsim (TStyle XQ) t_is_none ex_tree ex_tree').
+  { change ex_tree' with (sk_replace (TStyle XQ) ex_tree [1%nat; 1%nat] hid_big).
+    eapply hsim_replace; [vm_compute; reflexivity|reflexivity|reflexivity]. }
+  split; [exact Hs|]. split; [vm_compute; reflexivity|]. split; [vm_compute; reflexivity|].
+  pose proof (C05_taffy_engine_hidden_invisible XQ _ taffy_dispatch BlockEngine.block_pre abs_child_block taffy_leaf qi_mode
+                (fin_eqb_with xq_seqb) output_HIDDEN (f_with_order 0) ex_tree ex_tree' Hs 8 (ex_input 300%Z)) as Ho.
+  cbv zeta in Ho. apply proj2 in Ho.
+  change (Engine.memo (TStyle XQ) (FIn XQ) (LayoutOutput XQ) (FLay XQ) qi_mode (fin_eqb_with xq_seqb) t_is_none output_HIDDEN (f_with_order 0)
+            (taffy_algo taffy_dispatch BlockEngine.block_pre abs_child_block taffy_leaf)) with (real_memo xq_seqb) in Ho.
+  change (Engine.fresh (TStyle XQ) (FIn XQ) (LayoutOutput XQ) (FLay XQ) (f_with_order 0)) with (taffy_fresh (T := XQ)) in Ho.
+  assert (X : match real_memo xq_seqb 8 (taffy_fresh ex_tree) (ex_input 300%Z), real_memo xq_seqb 8 (taffy_fresh ex_tree') (ex_input 300%Z) with
+              | Some (o, t), Some (_, t') =>
+                  xq_is (width (out_size o)) 200 && xq_is (height (out_size o)) 30 &&
+                  boxes_are (bxz t) [(0,0,0,0); (0,0,200,20); (0,0,30,20); (30,0,40,10); (0,20,200,10); (0,0,20,10); (0,0,0,0); (50,0,50,10);
+                                     (0,30,10,10)]%Z &&
+                  boxes_are (bxz t') [(0,0,0,0); (0,0,200,20); (0,0,30,20); (30,0,40,10); (0,20,200,10); (0,0,20,10); (0,0,0,0); (0,0,0,0);
+                                      (0,0,0,0); (50,0,50,10); (0,30,10,10)]%Z
+              | _, _ => false end = true) by (vm_compute; reflexivity).
+  remember (real_memo xq_seqb 8 (taffy_fresh ex_tree) (ex_input 300%Z)) as r eqn:E.
+  remember (real_memo xq_seqb 8 (taffy_fresh ex_tree') (ex_input 300%Z)) as r' eqn:E'.
+  destruct r as [[o t]|]; [|discriminate X]. destruct r' as [[o' t']|]; [|discriminate X].
+  destruct Ho as [<- Ht]. exists o, t, t'. split; [reflexivity|]. split; [reflexivity|]. split; [exact Ht|].
+  apply andb_true_iff in X. destruct X as [X X3]. apply andb_true_iff in X. destruct X as [X1 X2].
+  repeat split; assumption.
+Qed.
+
+(* ---- what `vh taffytree` really evaluates (Model/TaffyEngineRun.v run_case = Model/TaffyRoot.v real_layout_passes): compute_root_layout -- the
+   root input computed from the root style, ONE memoised query, the root's own layout stored -- and SEVERAL compute_layout calls on the same
+   tree.  For every dispatch / preprocessing / absolute routine / leaf / key equality, any `Num`, any fuel, any trees that are tsim (any cache
+   contents, e.g. after earlier passes) and whose root is not display:none (a hidden root keeps its box fields: C05_hidden_root_refuted):
+   a whole layout pass keeps tsim (or runs out of fuel on both sides), and so does any sequence of passes; from fresh hsim skeletons in
+   particular.  (Proofs/TaffyRootBlind.v; audit, wave 7b: C05_taffy_engine_hidden_invisible is about one memoised query.) *)
+From TV Require Proofs.TaffyRootBlind.
+Theorem C05_taffy_layout_pass_hidden_invisible :
+  forall (T : Type) (N : Num T) (teq : T -> T -> bool) (disp : TStyle T -> nat -> TKind) (pre : BStyle T -> BIn T -> BIn T)
+         (abs_child : @AbsChild T) (leaf : TStyle T -> FIn T -> LayoutOutput T) f
+         (t t' : Engine.tree (TStyle T) (FIn T) (LayoutOutput T) (FLay T)) avail,
+    tsim (TStyle T) (FIn T) (LayoutOutput T) (FLay T) t_is_none t t' ->
+    t_is_none (style_of (TStyle T) (FIn T) (LayoutOutput T) (FLay T) t) = false ->
+    match taffy_compute_root teq disp pre abs_child leaf f t avail, taffy_compute_root teq disp pre abs_child leaf f t' avail with
+    | Some u, Some u' => tsim (TStyle T) (FIn T) (LayoutOutput T) (FLay T) t_is_none u u'
+    | None, None => True
+    | _, _ => False
+    end.
+Proof. intros T N teq disp pre abs_child leaf f t t' avail. exact (TaffyRootBlind.compute_root_tsim teq disp pre abs_child leaf f t t' avail). Qed.
+
+Theorem C05_taffy_layout_passes_hidden_invisible :
+  forall (T : Type) (N : Num T) (teq : T -> T -> bool) (disp : TStyle T -> nat -> TKind) (pre : BStyle T -> BIn T -> BIn T)
+         (abs_child : @AbsChild T) (leaf : TStyle T -> FIn T -> LayoutOutput T) f (k k' : Engine.sk (TStyle T)) avails,
+    hsim (TStyle T) t_is_none k k' -> t_is_none (Engine.sstyle (TStyle T) k) = false ->
+    match taffy_layout_passes teq disp pre abs_child leaf f k avails, taffy_layout_passes teq disp pre abs_child leaf f k' avails with
+    | Some (_, u), Some (_, u') => tsim (TStyle T) (FIn T) (LayoutOutput T) (FLay T) t_is_none u u'
+    | None, None => True
+    | _, _ => False
+    end.
+Proof.
+  intros T N teq disp pre abs_child leaf f k k' avails Hs Hn. unfold taffy_layout_passes.
+  apply (TaffyRootBlind.passes_tsim teq disp pre abs_child leaf f avails).
+  - apply tsim_fresh. exact Hs.
+  - destruct k. exact Hn.
+Qed.
+
+(* computed: two passes (available width 300, then 150) of the REAL instance with representation keys on ex_tree / ex_tree' (above): both
+   succeed; after the second pass the boxes of the visible nodes coincide and the hidden subtree is zero *)
+Example C05_taffy_layout_passes_example :
+  match real_layout_passes xq_seqb 8 ex_tree [ex_avail 300%Z; ex_avail 150%Z], real_layout_passes xq_seqb 8 ex_tree' [ex_avail 300%Z; ex_avail 150%Z] with
+  | Some (_, u), Some (_, u') =>
+      boxes_are (bxz u)  [(0,0,200,30); (0,0,200,20); (0,0,30,20); (30,0,40,10); (0,20,200,10); (0,0,20,10); (0,0,0,0); (50,0,50,10);
+                          (0,30,10,10)]%Z
+      && boxes_are (bxz u') [(0,0,200,30); (0,0,200,20); (0,0,30,20); (30,0,40,10); (0,20,200,10); (0,0,20,10); (0,0,0,0); (0,0,0,0); (0,0,0,0);
+                             (50,0,50,10); (0,30,10,10)]%Z
+  | _, _ => false
+  end = true.
+Proof. vm_compute. reflexivity. Qed.
+
+Print Assumptions C05_grid_algorithm_hidden_blind_example.
+Print Assumptions C05_taffy_engine_example.
+Print Assumptions C05_taffy_layout_pass_hidden_invisible.
+Print Assumptions C05_taffy_layout_passes_hidden_invisible.
+Print Assumptions C05_taffy_layout_passes_example.
